@@ -317,6 +317,13 @@ func (f *FuncVC) loopHead(fr *frame, li *loopInfo, entry *State) *State {
 	for _, a := range cells {
 		et := a.Type().(*types.Pointer).Elem()
 		st.cells[a] = f.freshVal(st, "hv."+a.Comment, et)
+		if a.Comment == "rangeindex" {
+			// the hidden index of a range-over-slice loop starts at -1 and is only ever incremented (go/ssa lowering):
+			// a built-in invariant, since contracts cannot name the variable
+			if v := st.cells[a]; v.K == KInt {
+				f.assumeUnder(st, "(>= "+f.it(v)+" (- 1))")
+			}
+		}
 	}
 	var hkeys []string
 	for k := range modHeap {
